@@ -10,7 +10,7 @@ import e2lib
 
 ESHUTDOWN, ETIMEDOUT = 108, 110
 PENDING = os.path.join(VERIF, 'checks', 'C08_pending_findings.json')
-F1_WITNESS = 'P wp 0 4 | create 1 0;create 2 0;usleep 10;interrupt 2 108;usleep 3000;wp_destroy 0 | wp_join 0 | wp_call 0 1 100;nop | wp_tt | wp_tt'
+F1_WITNESS = 'P wp 0 4 | create 1 0;create 2 0;usleep 10;interrupt 2 108;usleep 3000;wp_destroy 0 1 | wp_join 0 | wp_call 0 1 100;nop | wp_tt | wp_tt'
 
 
 def ring_capacity(c):
@@ -30,9 +30,11 @@ def gen_prog(rng, big=False):
     njoin = 1 if rng.random() < .75 else 2
     next_id = [1]
     pal = rng.choice([[100, 100, 200], [50, 100, 150], [10, 20, 30, 40], [1, 2, 3], [100], [300, 700, 1100], [1024, 1023, 1025, 2048]])
+    nosleep = rng.random() < .45                # yield-only bodies: destruction may overlap running tasks
 
     def body():
         r = rng.random()
+        if nosleep: return [0] * rng.choice([0, 0, 1, 1, 2, 3, 5])
         if r < .30: return []
         if r < .45: return [0]
         if r < .60: return [rng.choice(pal)]
@@ -66,9 +68,10 @@ def gen_prog(rng, big=False):
             ops = [o for o in ops if o[0] != 'wp_call'] + [o for o in ops if o[0] == 'wp_call'][:1]
         threads.append(ops)
     n = len(threads)
-    t0 = [('create', [k, 0]) for k in range(1, n)]
+    # the main thread yields once right after the creates so that the joiners register before anything else
+    t0 = [('create', [k, 0]) for k in range(1, n)] + [('yield', [])]
     if rng.random() < .3:
-        t0.insert(rng.randint(1, len(t0)), submit())
+        t0.append(submit())
     style = rng.random()
     if style < .35:
         pass                                    # destruction right after the creates: races with everything
@@ -83,11 +86,14 @@ def gen_prog(rng, big=False):
         for _ in range(rng.randint(1, 3)):
             t0.append(('interrupt', [rng.randrange(1, n), rng.choice([4, 4, 11, 125])]))
             if rng.random() < .5: t0.append(('usleep', [rng.choice(pal)]))
+    threads[0] = t0
+    # bodies that sleep need the quiescence gate (q = 1): E2's virtual time stands still while the destructor spins
+    sleepy = any(a > 0 for t in threads for o in t if o[0] in ('wp_call', 'wp_async') for a in o[1][2:])
+    q = 1 if sleepy else rng.choice([0, 0, 1])
     if rng.random() < .15:                     # a second destroyer racing
         k = rng.randrange(1 + njoin, n)
-        threads[k].insert(rng.randint(0, len(threads[k])), ('wp_destroy', [0]))
-    t0.append(('wp_destroy', [0]))
-    threads[0] = t0
+        threads[k].insert(rng.randint(0, len(threads[k])), ('wp_destroy', [0, q]))
+    t0.append(('wp_destroy', [0, q]))
     ntasks = next_id[0]
     slot = 'wp_tt' if mode == 0 else 'wp_pt'
     if mode >= 0:
